@@ -22,7 +22,7 @@ ASSUMPTIONS = ["asyncio timer order as on the virtual clock"]
 
 def scripts(env):
     out = [c["script"] for _, c in load_corpus("C14") if "script" in c]
-    out += G.c14_boundary()
+    out += G.c14_boundary() + G.c14_send_raises()
     out += [G.c14_random(env.rng) for _ in range(env.scale(150, 4000))]
     out += [G.c14_sendfail(env.rng) for _ in range(env.scale(120, 3000))]
     return out
